@@ -177,7 +177,7 @@ func (r *run) shapes() {
 				r.events = append(r.events, Event{ID: id, Hist: l.Hist, Sm: stream})
 				r.evScen = append(r.evScen, s)
 			}
-			r.c.Report(s, ms)
+			r.report(s, ms)
 		}
 		if r.nHist%40 == 0 {
 			r.c.Sample(json.RawMessage(p))
